@@ -614,3 +614,29 @@ twin("c12-twin-sidecar-isfile-local", "C12", (GE, "            if not vfs.isfile
 fault("c05-mbox-off-by-one", "C05", "R05d", (MBOX, "self.genargsselector(self.getargflag() + str(index))", "self.genargsselector(self.getargflag() + str(index - 1))"))
 twin("c05-twin-mbox-fstring", "C05", (MBOX, "self.genargsselector(self.getargflag() + str(index))", 'self.genargsselector(f"{self.getargflag()}{index}")'))
 fault("c05-mbox-parse-other-flag", "C05", "R05d", (MBOX, 'pattern = "^" + self.getargflag() + r"(\\d+)$"', 'pattern = "^/MESSAGE/" + r"(\\d+)$"'))
+
+# --- decoding after the whitespace collapse re-introduces line breaks (R13e)
+fault("c13-subject-decoded-after-collapse", "C13", "R13e", (MBOX, '            subject = re.sub(r"\\s+", " ", subject)\n', '            subject = re.sub(r"\\s+", " ", subject)\n            import email.header\n            subject = str(email.header.make_header(email.header.decode_header(subject)))\n'))
+twin("c13-twin-subject-decoded-before-collapse", "C13", (MBOX, '            subject = re.sub(r"\\s+", " ", subject)\n', '            import email.header\n            subject = str(email.header.make_header(email.header.decode_header(subject)))\n            subject = re.sub(r"\\s+", " ", subject)\n'))
+
+# --- R16f member names
+fault("c16-names-always-cp437", "C16", "R16f", (ZIPF, '            if info.flag_bits & 0x800:\n                filename = filename.encode("utf-8").decode(errors="surrogateescape")\n            else:\n                filename = filename.encode("cp437").decode(errors="surrogateescape")', '            filename = filename.encode("cp437", errors="replace").decode(errors="surrogateescape")'))
+fault("c16-names-not-redecoded", "C16", "R16f", (ZIPF, '                filename = filename.encode("cp437").decode(errors="surrogateescape")', "                pass"))
+twin("c16-twin-names-flag-local", "C16", (ZIPF, "            if info.flag_bits & 0x800:\n                filename = filename.encode(\"utf-8\")", "            isutf8 = bool(info.flag_bits & 0x800)\n            if isutf8:\n                filename = filename.encode(\"utf-8\")"))
+
+# --- R17i / R18d / R20d / R06e / R11a(one object) / R03h
+fault("c17-attrs-not-bound", "C17", "R17i", (TALES, "\t\t\tself.globals['attrs'] = originalAtts\n", ""))
+fault("c17-attrs-bound-at-scope", "C17", "R17i", (TALPY, "\t\tself.originalAttributes = args[0]\n\t\tself.currentAttributes = args[1]", "\t\tself.originalAttributes = args[0]\n\t\tself.context.addGlobal ('attrs', args[0])\n\t\tself.currentAttributes = args[1]"))
+fault("c17-evaluate-without-attrs", "C17", "R17i", (TALPY, "\t\tresult = self.context.evaluate (args[0], self.originalAttributes)", "\t\tresult = self.context.evaluate (args[0])"))
+FHP = "simpletal/FixedHTMLParser.py"
+fault("c18-charrefs-live-unescaped", "C18", "R18d", (FHP, "\tdef unescape(self, s):\n", "\tdef __init__ (self):\n\t\thtml.parser.HTMLParser.__init__ (self, convert_charrefs=False)\n\n\tdef unescape(self, s):\n"))
+fault("c18-handle-data-unescaped", "C18", "R18d", (TALPY, "\t\tself.parseData (html.escape (data, quote=False))", "\t\tself.parseData (data)"))
+twin("c18-twin-charrefs-live-escaped", "C18", (FHP, "\tdef unescape(self, s):\n", "\tdef __init__ (self):\n\t\thtml.parser.HTMLParser.__init__ (self, convert_charrefs=False)\n\n\tdef unescape(self, s):\n"),
+     (TALPY, "\t\tself.parseData (chr (int (ref)))", "\t\tself.parseData (html.escape (chr (int (ref)), quote=False))"))
+fault("c20-log-once-per-protocol", "C20", "R20d", (GEXC, "    if handler:\n        handlerstr = type(handler).__name__\n", "    if handler:\n        handlerstr = type(handler).__name__\n    if protocol and getattr(protocol, 'logged', False):\n        return\n    if protocol:\n        protocol.logged = True\n"))
+fault("c20-log-skips-closed", "C20", "R20d", (GEXC, "    if handler:\n        handlerstr = type(handler).__name__\n", "    if handler:\n        handlerstr = type(handler).__name__\n    if isinstance(exception, BrokenPipeError):\n        return\n"))
+fault("c06-http-local-by-hostname", "C06", "R06e", (HTTP, "        elif (not entry.gethost()) and (not entry.getport()):", "        elif (not entry.getport()) or entry.gethost() == self.server.server_name:"))
+fault("c06-gemini-local-ignores-port", "C06", "R06e", (GEM, "        elif (not entry.gethost()) and (not entry.getport()):", "        elif not entry.gethost():"))
+twin("c06-twin-local-demorgan", "C06", (HTTP, "        elif (not entry.gethost()) and (not entry.getport()):", "        elif not (entry.gethost() or entry.getport()):"))
+fault("c11-records-until-eof", "C11", "R11a", (DIR, "                    self.fileentries = pickle.load(fp)", "                    up = pickle.Unpickler(fp)\n                    self.fileentries = []\n                    while fp.peek(1):\n                        self.fileentries.append(up.load())"))
+fault("c03-mbox-size-set", "C03", "R03h", (MBOX, '                self.entry.setname("<no subject>")\n', '                self.entry.setname("<no subject>")\n            self.entry.size = len(message.as_string())\n'))
